@@ -1446,6 +1446,7 @@ def _run_history(case, ctx):
     prev = set()
     kinds = set()
     rejected_before = []
+    wrong_prev = set()
     corrupting = []       # refused assignments after which the object's state or reported parameters had changed
     for step, (name, value) in enumerate([(None, None)] + [tuple(o) for o in ops]):
         setter = None
@@ -1566,10 +1567,10 @@ def _run_history(case, ctx):
                          "after this setter the live object's %s differs from freshly built objects'" % obs,
                          setter=setter, observable=obs, noop_assignment=was_noop,
                          **m_ld[obs])
-        if rejected_now and (_reported(ctx, live, M, cls, seen, rejected=rejected_now) or (stale - prev)):
+        wrong = set(_reported(ctx, live, M, cls, seen, rejected=rejected_now))
+        if rejected_now and ((wrong - wrong_prev) or (stale - prev)):
             corrupting.append(rejected_now)
-        elif not rejected_now:
-            _reported(ctx, live, M, cls, seen)
+        wrong_prev = wrong
         prev = stale
         if step == 0:
             _reported(ctx, objs[1], M, cls, seen)
